@@ -382,6 +382,9 @@ class C09(DiffProperty):
         cases = []
         views = ["kind", "str", "vec", "iter", "self", "buf", "ref"]
         lens = [0, 1, 2, 20, 21, 100, 247, 248, 249, 250, 251, 252, 255, 256, 257, 1000, 65534, 65535, 65536]
+        # sizes at which the buffer allocator rounds (blocks of 128 bytes with a 64 byte header): a reservation that is one
+        # byte short (no room for the terminator) only shows at len = 128*k - 64
+        lens += [128 * k - 64 + d for k in (3, 4, 5, 8, 12) for d in (-1, 0, 1)] + [65471, 65472, 65473, 65600]
 
         def value(n):
             if n > 300 or rng.random() < 0.3:
@@ -396,7 +399,7 @@ class C09(DiffProperty):
                 cases.append(" ".join(["m", chunked(value(n)) or "-"] + ops))
         cases.append("m 6162 newi kind str newv str newi vec")
         for _ in range(400 if tier == "quick" else 6000):
-            n = rng.choice(lens + [rng.randrange(0, 300)] * 6 + [rng.randrange(240, 260)] * 4)
+            n = rng.choice(lens + [rng.randrange(0, 300)] * 6 + [rng.randrange(240, 260)] * 4 + [128 * rng.randrange(3, 40) - 64 + rng.choice([-1, 0, 0, 1])] * 4)
             ops = [rng.choice(["newv", "newv", "news", "newg", "newb"])]
             basic = ops[0] == "newg" or (ops[0] != "newb" and n <= 249)
             for _ in range(rng.randrange(1, 12)):
@@ -413,7 +416,7 @@ class C09(DiffProperty):
         cases = self.gen_meta(rng, tier)
         n = self.quick_n if tier == "quick" else self.thorough_n
         # value lengths across the representation limits, plain and quoted, in the three styles
-        lens = [248, 249, 250, 251, 254, 255, 256, 257] + ([65534, 65535, 65536, 65537] if tier == "thorough" else [65535, 65536])
+        lens = [248, 249, 250, 251, 254, 255, 256, 257, 319, 320, 321, 448, 576, 1472] + ([65472, 65534, 65535, 65536, 65537, 65600] if tier == "thorough" else [65472, 65535, 65536])
         for ln in lens:
             for st in "pxsy":
                 for q in ((0, 34) if ln < 1000 else (0,)):
@@ -458,7 +461,7 @@ class C09(DiffProperty):
             "white space or by a comment; 3% of the names keep characters that cannot be written and 10% of the enclosed/separated "
             "trees are nested deeper than the style can carry: for those the specification makes no claim (r* d*).  "
             "(2) the value store behind a node: m <text> <operations>, texts of 0..300 bytes (dense at 240..260) and 1000, "
-            "65534..65536 bytes, created from a vector of char (what the parser hands over), a string pointer, an int (refused), by mpt_meta_geninfo (refused above 249 bytes) or by mpt_meta_buffer over an array without terminator, "
+            "65534..65536 bytes and the allocator's rounding sizes 128*k-64 (+-1), created from a vector of char (what the parser hands over), a string pointer, an int (refused), by mpt_meta_geninfo (refused above 249 bytes) or by mpt_meta_buffer over an array without terminator, "
             "histories of up to 12 conversions (type list, string, vector, iterator, metatype, buffer), addref and clone (clones of "
             "the basic metatype only with PATCHED_GENINFO_CLONE).  A case is non-trivial always; distinct = distinct case text")
     modelled = ("as C08 (every parser function of mptcore/parse, both variants of mpt_parse_option: as it is / with "
